@@ -33,10 +33,11 @@ contract("system.System.system_mass", is_property=True,
                         inv=["forall(lambda k: implies(0 <= k and k < _i1, system_mass - val(self._molecules[k].mixture._system_mass) <= 0.00000001))"])})
 
 contract("molecule.Molecule.generate", trusted=True,
-         why_trusted="folds element.generate (Stochastic.generate / SmilesToken.generate, both proved) over the elements; the loop invariant over a molecule that is first None, then "
-                     "fresh, or the caller's prefix throughout did not discharge within the budget (tried: peeled first iteration, stable local, state-independent "
-                     "well-posedness predicate); C06's bounded driver checks the fold on all choice sequences. Assumed here only: returns a generator-owned molecule and "
-                     "reports which component made it",
+         why_trusted="folds element.generate (Stochastic.generate / SmilesToken.generate, both proved) over the elements. The loop invariant did not discharge within the budget: the "
+                     "growing molecule changes identity at every stochastic element (capping works on a deep copy, so the element returns a NEW MolGen unless it ended "
+                     "prematurely), so the invariant is 'my_mol is the prefix, or an object allocated by some earlier iteration', and heap reads through such a reference do not "
+                     "resolve at VC-generation time (tried: peeled first iteration, stable local, two contract variants, reference intervals learnt from fresh() clauses). "
+                     "C06's bounded driver checks the fold on all choice sequences. Assumed here only: returns a generator-owned molecule and reports which component made it",
          props=["C13"], params=dict(self=Ref("Molecule"), prefix=NRef("MolGen"), rng=GENERATOR), defaults={"prefix": None, "rng": None},
          returns=Ref("MolGen"),
          ensures=["fresh(result)", "last_gen_mol is self and last_gen_result is result", "acc == old(acc)"],
